@@ -41,7 +41,7 @@ class P(Prop):
     ID = "C09"
     MODULE = "C09"
     THEOREMS = ([("C09_Log%d_%s" % (k, w)) for k in range(9) if k != 4 for w in ("indefinite", "integral", "knot", "deriv", "area")] +
-                ["C09_IntOfLog%d_evaluate" % k for k in range(9) if k != 4] + ["C09_Log4_indefinite", "C09_Log4_evaluate_closed", "C09_Log4_evaluate_series", "C09_Log4_deriv"] +
+                ["C09_IntOfLog%d_evaluate" % k for k in range(9) if k != 4] + ["C09_Log4_indefinite", "C09_Log4_integral_shape", "C09_Log4_knot", "C09_Log4_evaluate_closed", "C09_Log4_evaluate_series", "C09_Log4_deriv"] +
                 ["C09_IntOfLog%d_float" % k for k in range(9) if k != 4] + ["C09_Log%d_integral_float" % k for k in range(9) if k != 4] +
                 ["C09_float_hypotheses_hold"])
     PINNED_EXTRA = ["C09F.v"]
@@ -78,7 +78,8 @@ class P(Prop):
                         cs = [rng.choice([0.0, rng.uniform(-3, 3), rng.small_int(-5, 5)]) for _ in range(5)]
                     if style == "near_one":
                         near = lambda: 1.0 + rng.choice([-1, 1]) * rng.choice([rng.uniform(1e-4, 1.2e-2), 2.0 ** -rng.randint(7, 40), rng.uniform(1e-3, 0.3)])
-                        knot = [rng.choice([1.0, near()]), rng.choice([0.0, 2.0, rng.uniform(-5, 5)])]
+                        vnear = lambda: 1.0 + rng.choice([-1, 1]) * rng.choice([2.0 ** -rng.randint(20, 50), rng.uniform(1e-12, 9e-9), 6e-9])
+                        knot = [rng.choice([1.0, near(), vnear(), vnear()]), rng.choice([0.0, 2.0, rng.uniform(-5, 5)])]
                         ts = [near(), near(), knot[0]]
                     elif style == "tiny":
                         tiny = lambda: rng.choice([1.0, rng.uniform(1, 9)]) * 10.0 ** -rng.randint(290, 306)
